@@ -611,3 +611,59 @@ def radial_minimum_at_centre(r_min, cases):
     centre (radius 0, the usual situation of the central pixel of an odd-sized grid): it must reach the function at radius
     == minimum (any direction); bound: 40 (400) seeded inputs of 2 grids each."""
     return _check_radial(r_min, cases, allow_centre=True)
+
+
+# ------------------------------------------------------------------------------------------------ projected line vs profile angle
+def _gen_angle(rng, tier):
+    n = gens.budget(tier, 60, 600)
+    for i in range(n):
+        m = np.zeros(rng.randint(2, 7), dtype=bool)
+        yield {"mask": m, "pixel_scale": rng.choice([0.5, 1.0, 2.0]), "origin": rng.choice([0.0, 0.7, -1.3]), "coef": _coef(rng),
+               "angles": [0.0, 0, 30.0, 90.0, -45.0, 200.0, rng.uniform(-180.0, 180.0), rng.choice([1e-9, -1e-9, 360.0, -0.0])]}
+
+
+@bounded("C17", "projected-line-rotates-with-profile-angle", gen=_gen_angle)
+def projected_line_rotates_with_profile_angle(mask, pixel_scale, origin, coef, angles):
+    """C17: 'a 1D grid yields a 1D result evaluated along the radially projected line ... for every user function, ... profile
+    centres and angles' -- the projected line of a profile with angle a is ONE function of a: its direction turns by exactly
+    (a - b) between profiles with angles b and a (in the sense fixed by the pair 30, 90 degrees), including a = 0, 0.0, -0.0,
+    360 and tiny angles (no special-casing of a falsy or particular angle value); entry k == f(point k) throughout.
+    bound: 60 (600) seeded Grid1D inputs x 8 angles each."""
+    import autoarray as aa
+    mk = aa.Mask1D(mask=mask.copy(), pixel_scales=(pixel_scale,), origin=(origin,))
+    grid = aa.Grid1D.from_mask(mask=mk)
+    xs = np.asarray(grid.slim, dtype=float).copy()
+    if not np.any(np.abs(xs) > 1e-9):
+        return None
+
+    def direction(a):
+        p = _profile(aa, coef, {"centre": (0.0, 0.0), "angle": a})
+        res = p.projected_from(grid)
+        seen = p.seen[-1]
+        u = _line_direction(seen, xs) if seen.shape == (xs.shape[0], 2) else None
+        if u is None:
+            return None, "project_grid(angle=%r): not handed points x_k * u of one line" % (a,)
+        if not _close(np.asarray(res.slim, dtype=float), _f1(coef, seen)):
+            return None, "project_grid(angle=%r): entry k != f(point k)" % (a,)
+        return np.arctan2(u[0], u[1]), None       # polar angle of u = (u_y, u_x)
+
+    t30, e = direction(30.0)
+    if e:
+        return e
+    t90, e = direction(90.0)
+    if e:
+        return e
+    d = (t90 - t30 + np.pi) % (2 * np.pi) - np.pi
+    sense = 1.0 if abs(d - np.radians(60.0)) < 1e-6 else (-1.0 if abs(d + np.radians(60.0)) < 1e-6 else None)
+    if sense is None:
+        return "projected line turns by %.6f deg between profile angles 30 and 90 (want +-60)" % np.degrees(d)
+    for a in angles:
+        t, e = direction(a)
+        if e:
+            return e
+        want = t30 + sense * np.radians(float(a) - 30.0)
+        diff = (t - want + np.pi) % (2 * np.pi) - np.pi
+        if abs(diff) > 1e-6:
+            return ("projected line for profile angle %r points to %.6f deg, but the angles 30 and 90 fix it to %.6f deg"
+                    % (a, np.degrees(t), np.degrees(want)))
+    return None
